@@ -21,6 +21,26 @@ add('C06', 'TLC exhaustive over string alphabets on the lexer+reader machine (Ou
     'Bounded: exhaustive only up to the stated word counts; beyond that random. Trusted: harness/proj.py projection, '
     'the watchdog limit for "never hangs".', '7 (C06)')
 
+add('C07', 'TLC exhaustive over string alphabets: strict and tolerant run of the reader machine per source '
+    '(TolerantExtends, OnlyClosersInserted) + replay into the real parser in both modes + TLC trace validation',
+    'TLC runs the reader machine strictly and tolerantly on every source in scope and checks that a strict success is '
+    'reproduced identically by the tolerant run and that a tolerant success only inserts closers; every experiment is replayed '
+    'on the real parser, and recorded strict/tolerant parses of corpus, mutated and random sources are validated by TLC.',
+    'Bounded scopes; clause (c) under the side conditions of C08 and permitting its whitespace normalisation (weaker reading); '
+    'clause (b) on generated documents.', '7 (C07)')
+add('C08', 'TLC exhaustive over string alphabets: Conserves(source, output) on the reader machine + replay into the real '
+    'parser + TLC trace validation of recorded outputs',
+    'TLC checks the character-conservation alignment between every source in scope and the machine output; each experiment is '
+    'replayed on the real parser (text and tree must equal the machine\'s, else TLC judges the recorded output against the '
+    'contract); recorded outputs for corpus, mutated and random sources are validated by TLC.',
+    'Bounded scopes; side conditions decided by the reference machine; trusted: projection and alignment operator.', '7 (C08)')
+add('C16', 'TLC exhaustive over string alphabets: machine re-run on its own output (FixedPoint) + replay of the '
+    'parse/serialise/re-parse cycle on the real parser + TLC trace validation',
+    'For every source in scope TLC parses, serialises and re-parses with the reader machine and checks that the second parse '
+    'succeeds with identical text and shape; the same cycle is replayed on the real parser and recorded cycles for corpus, '
+    'mutated and random sources are validated by TLC.',
+    'Bounded scopes; side conditions (C08 + no bare sizing prefix) decided on the reference run.', '7 (C16)')
+
 NOT_YET = 'check not built yet in this round (planned, see DESIGN.md section 7)'
 
 
